@@ -407,6 +407,8 @@ class Observer:
         self.task_success_seen = {}
         self.paused_since = None
         self.cas_seen = 0
+        self.errs_seen = 0
+        self.flagged_nojoin = set()
 
     def fail(self, prop, sig, what):
         self.failures.append({'property': prop, 'signature': sig, 'what': what, 'at_event': len(self.tr.labels) - 1})
@@ -436,6 +438,8 @@ class Observer:
             for i, (a, b) in enumerate(zip(ptl, tlist)):
                 sa, sb = a.split(',')[1], b.split(',')[1]
                 if sa == 'SUCCESS' and sb != 'SUCCESS':
+                    if a.split(',')[5] == '1' and sb == 'WAITING' and self.prog.joins_on_cycle():
+                        continue   # a join inside a cycle is re-armed for the next iteration (same row reused)
                     self.fail('C03', 'task-left-SUCCESS:%s' % label.split(':')[0].split('(')[0],
                               'task #%d left SUCCESS -> %s on %s' % (i, sb, label))
             # C03: an accepted action result is final
@@ -454,6 +458,38 @@ class Observer:
             # C03/C11: finished workflow not altered by late results / timers / duplicates
             if pwf in ('SUCCESS', 'ERROR', 'CANCELLED') and wf != pwf and not is_rerun and not label.startswith('stop'):
                 self.fail('C11', 'finished-wf-changed:%s' % label.split('(')[0], 'workflow %s -> %s on %s' % (pwf, wf, label))
+        # C04: a task whose spec is a join always carries the join's unique key, and gets its
+        # first action only when enough inbound tasks have completed and routed to it
+        for i, t in enumerate(tlist):
+            f = t.split(',')
+            jk = self.prog.tasks[int(f[0])].get('join')
+            if jk is not None and f[5] != '1' and i not in self.flagged_nojoin:
+                self.flagged_nojoin.add(i)
+                self.fail('C04', 'join-task-created-as-ordinary-task', 'task #%d (t%s, join: %s) has no unique key (created on %s)' % (i, f[0], jk, label))
+        if self.prev is not None and len(alist) > len((self.prev[3].split(';') if self.prev[3] else [])):
+            for a in alist[len((self.prev[3].split(';') if self.prev[3] else [])):]:
+                ti = int(a.split(',')[0])
+                name = int(tlist[ti].split(',')[0])
+                jk = self.prog.tasks[name].get('join')
+                if jk is None or label.startswith('rerun') or (label.startswith('ST(') and label.split(',')[2] == '1'):
+                    continue   # an explicit rerun of the join task itself re-executes it (C12), prerequisites are not re-checked
+                inb = self.prog.inbound(name)
+                routed = set()
+                for t in tlist:
+                    f = t.split(',', 6)
+                    if int(f[0]) in inb and f[1] in ('SUCCESS', 'ERROR', 'CANCELLED', 'SKIPPED') and ('%d:' % name) in f[6]:
+                        routed.add(int(f[0]))
+                need = len(inb) if jk == 'all' else (1 if jk == 'one' else int(jk))
+                if inb and len(routed) < need:
+                    self.fail('C04', 'join-started-before-prerequisites:%s' % ('all' if jk == 'all' else 'partial'),
+                              'join t%d (join: %s) got an action on %s with only %d of %d required inbound tasks completed and routed' % (
+                                  name, jk, label, len(routed), need))
+        # C01: no non-declared exception, also inside scheduler jobs (where it is logged and swallowed)
+        new_errs = self.d.entry_errors[self.errs_seen:]
+        self.errs_seen = len(self.d.entry_errors)
+        for e in new_errs:
+            if e['event'].startswith('job') and not label.startswith('dup'):
+                self.fail('C01', 'internal-error-in-job:%s' % e['type'], '%s inside scheduler job on %s: %s' % (e['type'], label, e['msg'][:120]))
         # C01: declared errors only
         if out == 'internal' and not label.startswith('dup') and not self._dup_shadow(label):
             self.fail('C01', 'internal-error:%s' % label.split('(')[0].split(':')[0], 'non-declared exception on %s: %s' % (
@@ -566,7 +602,7 @@ def run_jobs(jobs, nproc=None):
 
 
 # ------------------------------------------------------------------ replay
-def replay_labels(d, prog, seed, labels, style='yaql'):
+def replay_labels(d, prog, seed, labels, style='yaql', lenient=False):
     """Re-run a recorded list of event labels on the real engine (for --replay and debugging)."""
     tr = Trace(prog, seed, style, d.scheduler_type)
     d.reset(seed)
@@ -581,7 +617,12 @@ def replay_labels(d, prog, seed, labels, style='yaql'):
         v = real_view(d, prog)
         tr.views.append(v)
         obs.after_event(label, out, v)
+    tr.events = []
     for label in labels:
+        try:
+            ev = _label_to_coq(label)
+        except Exception:
+            ev = None
         if label == 'start':
             out, _ = d.start_workflow('wf', {})
             real_view(d, prog)
@@ -594,23 +635,190 @@ def replay_labels(d, prog, seed, labels, style='yaql'):
         elif label.startswith('rerun:') or label.startswith('skip:'):
             parts = label.split(':')
             rank = int(parts[1])
-            tid = [k for k, v in d._trank.items() if v == rank][0]
+            tids = [k for k, v in d._trank.items() if v == rank]
+            if not tids:
+                break
+            tid = tids[0]
             out = d.operator('rerun', tid, reset=(parts[2] == 'True')) if parts[0] == 'rerun' else d.operator('rerun', tid, skip=True)
         elif label.startswith('dup:'):
+            if label[4:] not in delivered:
+                break
             out = d.redeliver(delivered[label[4:]])
         elif label.startswith('PQ'):
-            pid = [p for p, x in d.pending.items() if x['kind'] == 'ptq'][int(label[2:])]
-            out = d.fire(('item', pid))
+            pqs = [p for p, x in d.pending.items() if x['kind'] == 'ptq']
+            if int(label[2:]) >= len(pqs):
+                if lenient:
+                    break
+                raise KeyError(label)
+            out = d.fire(('item', pqs[int(label[2:])]))
         elif label.startswith('RF('):
-            jid = [j['id'] for j in d.jobs() if j['func'] == '_refresh_task_state' and not j['captured']
-                   and 'RF(%d)' % d._trank.get(j['args'].get('task_ex_id'), -1) == label][0]
-            out = d.fire(('job', jid))
+            jids = [j['id'] for j in d.jobs() if j['func'] == '_refresh_task_state' and not j['captured']
+                    and 'RF(%d)' % d._trank.get(j['args'].get('task_ex_id'), -1) == label]
+            if not jids:
+                if lenient:
+                    break
+                raise KeyError(label)
+            out = d.fire(('job', jids[0]))
         else:
-            pid = [p for p, x in d.pending.items() if item_token(d, x) == label][0]
+            pids = [p for p, x in d.pending.items() if item_token(d, x) == label]
+            if not pids:
+                if lenient:
+                    break
+                raise KeyError(label)
+            pid = pids[0]
             delivered[label] = d.pending[pid]
             out = d.fire(('item', pid))
+        tr.events.append(ev)
         record(label, out)
     tr.entry_errors = list(d.entry_errors)
     tr.uids = task_uids(d)
+    tr.quiescent = not [e for e in d.enabled() if not d._is_integrity_job(e)]
+    obs.at_end()
     tr.failures = obs.failures
     return tr
+
+
+def _label_to_coq(label):
+    if label == 'start':
+        return 'EStart'
+    if label == 'pause':
+        return 'EPause'
+    if label == 'resume':
+        return 'EResume'
+    if label.startswith('stop:'):
+        return '(EStop %s)' % label.split(':')[1]
+    if label.startswith('rerun:'):
+        p = label.split(':')
+        return '(ERerun %s %s)' % (p[1], core.coq_bool(p[2] == 'True'))
+    if label.startswith('skip:'):
+        return '(ESkipTask %s)' % label.split(':')[1]
+    if label.startswith('dup:'):
+        return '(EDup %s)' % item_coq(label[4:])
+    if label.startswith('PQ'):
+        return '(EFirePtq %s)' % label[2:]
+    return '(EFire %s)' % item_coq(label)
+
+
+# ------------------------------------------------------------------ suites
+PROFILES = {
+    # plain runs: only internal events
+    'plain': {},
+    'operator': {'pause': 0.04, 'resume': 0.04, 'stop': 0.012, 'rerun': 0.03, 'skip': 0.02, 'dup': 0.04},
+    'pause': {'pause': 0.07, 'resume': 0.06},
+    'stop': {'stop': 0.04, 'pause': 0.02, 'resume': 0.02},
+    'rerun': {'rerun': 0.07, 'skip': 0.04, 'pause': 0.01, 'resume': 0.02},
+    'dup': {'dup': 0.12},
+}
+
+CORPUS_DIR = core.os.path.join(core.VERIF, 'corpus', 'engine')
+
+
+def load_corpus():
+    import glob
+    import json
+    out = []
+    for f in sorted(glob.glob(core.os.path.join(CORPUS_DIR, '*.json'))):
+        c = json.load(open(f))
+        c['file'] = core.os.path.basename(f)
+        out.append(c)
+    return out
+
+
+def _tuplify(tasks):
+    return [dict(t, succ=[tuple(x) for x in t.get('succ') or []], err=[tuple(x) for x in t.get('err') or []],
+                 compl=[tuple(x) for x in t.get('compl') or []]) for t in tasks]
+
+
+def _corpus_worker(c):
+    import logging
+    logging.disable(logging.CRITICAL)
+    from harness import engine_driver as ed
+    sched = c.get('scheduler', 'legacy')
+    d = _WORKER.get('d')
+    if d is None or d.scheduler_type != sched:
+        d = ed.Driver(sched, 0)
+        _WORKER['d'] = d
+    prog = Program(_tuplify(c['program']['tasks']))
+    tr = replay_labels(d, prog, c.get('seed', 0), c['labels'], style=c.get('style', 'yaql'), lenient=True)
+    tr.corpus = c['file']
+    return tr
+
+
+def run_corpus(props=None):
+    import multiprocessing as mp
+    cs = [c for c in load_corpus() if props is None or set(c.get('properties', [])) & set(props)]
+    if not cs:
+        return []
+    with mp.get_context('spawn').Pool(min(8, len(cs))) as pool:
+        return pool.map(_corpus_worker, cs)
+
+
+def trace_suite(ctx, props, profiles, n_quick, n_thorough, suite='engine_trace', max_tasks=6, seed_base=0):
+    """Generate programs, run them on the real engine under the given injection profiles,
+    replay in the model, compare views, and report the implementation-side oracle failures
+    that concern `props`."""
+    n = ctx.n(n_quick, n_thorough)
+    rng = core.random.Random('%s/%s/%d' % (suite, ctx.seed, seed_base))
+    jobs = []
+    for i in range(n):
+        prof = profiles[i % len(profiles)]
+        cyc = rng.random() < 0.2
+        prog = gen_program(rng, max_tasks=max_tasks, allow_cycles=cyc)
+        jobs.append({'tasks': prog.tasks, 'seed': ctx.seed * 100003 + i, 'inject': PROFILES[prof], 'profile': prof,
+                     'sched': 'default' if i % 4 == 3 else 'legacy', 'style': 'jinja' if i % 5 == 4 else 'yaql',
+                     'max_events': 160})
+    corpus = run_corpus(props)
+    traces = corpus + run_jobs(jobs)
+    usable = [t for t in traces if not (t.unsupported or '').startswith('rejected')]
+    models = model_traces(usable, name=suite)
+    compare(ctx, suite, usable, models)
+    dist = core.collections.Counter()
+    nontrivial = 0
+    for t in usable:
+        for l in t.labels:
+            dist[l.split(':')[0].split('(')[0].rstrip('0123456789')] += 1
+        key = (json_key(t.prog.tasks), tuple(t.labels))
+        ctx.count(suite, key, nontrivial=len(t.labels) >= 6, evaluations=1)
+        for f in t.failures:
+            if f['property'] in props:
+                ctx.fail(f['signature'], f['what'], dict(t.to_json(), events=t.labels[:f['at_event'] + 1], kind='engine-trace',
+                                                         corpus=getattr(t, 'corpus', None)))
+    st = ctx.cov['suites'].setdefault(suite, {})
+    st['events_by_kind'] = dict(dist)
+    st['traces'] = len(usable)
+    st['rejected_definitions'] = len(traces) - len(usable)
+    st['events'] = sum(len(t.labels) for t in usable)
+    st['programs_with_cycles'] = sum(1 for t in usable if t.prog.has_cycle())
+    st['programs_with_joins'] = sum(1 for t in usable if any(x.get('join') is not None for x in t.prog.tasks))
+    st['quiescent_final'] = dict(core.collections.Counter(t.views[-1][0] for t in usable if t.views and getattr(t, 'quiescent', False)))
+    if usable:
+        t = usable[-1]
+        ctx.sample({'suite': suite, 'yaml': t.prog.yaml(t.style), 'events': t.labels[:40], 'final_view': t.views[-1] if t.views else None})
+    ctx.trusted.append('harness/engine_driver.py interception of rpc / executor / post_tx_queue threads / scheduler / clock / uuid source')
+    ctx.assumptions.append('one event = one transaction (tx_lock serialises transactions in one process); multi-process '
+                           'READ COMMITTED interleavings are modelled only by the atomic-step abstraction')
+    return usable
+
+
+def json_key(x):
+    import json
+    return json.dumps(x, sort_keys=True, default=str)
+
+
+def replay_case(obj):
+    """./check Cnn --replay: re-run a recorded engine trace on the real engine and print what happens."""
+    import logging
+    logging.disable(logging.CRITICAL)
+    from harness import engine_driver as ed
+    r = obj.get('replay', obj)
+    d = ed.Driver(r.get('scheduler', 'legacy'), 0)
+    prog = Program(_tuplify(r['program']['tasks']))
+    style = 'jinja' if '{{' in r.get('yaml', '') else 'yaql'
+    tr = replay_labels(d, prog, r.get('seed', 0), r['events'], style=style, lenient=True)
+    print(prog.yaml(style))
+    for l, o, v in zip(tr.labels, tr.outcomes, tr.views):
+        print('%-28s %-9s %s' % (l, o, v))
+    for f in tr.failures:
+        print('ORACLE %s %s: %s' % (f['property'], f['signature'], f['what']))
+    want = obj.get('signature')
+    return 1 if any(f['signature'] == want for f in tr.failures) or (want is None and tr.failures) else 0
